@@ -24,6 +24,10 @@ Decides:
                    only" skipping at that block's end: without it everything after a multi-paragraph group title vanishes from --help).
  O order           render_help writes descr, usage, header, item groups (parser meta then help/version meta), footer in
                    that order.
+ D derive sections the doc comment of a derived parser is split into description / header / footer as documented, each section yielding
+                   only to ITS OWN explicit annotation (translation-validation members of C17 that carry doc comments).
+ C doc writers    only write_str / write (and the Doc-splicing doc / em_doc / first_line) append to Doc.payload, and they record exactly the
+                   number of BYTES appended in the Text token (a char pushed with length 1 shifts every later name of the help).
 Does not decide: de-duplication and grouping outcomes for particular shapes."""
 import re
 from core import *
@@ -36,7 +40,7 @@ import walkers
 LEVEL = 'other'
 EXPLANATION = __doc__
 ASSUMPTIONS = ['third-party Parser impls describe themselves truthfully']
-FLOORS = {'S.eval-meta': 28, 'K.skip': 5, 'W.walkers': 75, 'D.dedup': 5, 'H.item-copy': 5, 'N.names': 2, 'O.order': 5, 'C.cursor': 2, 'E.embedders': 2}
+FLOORS = {'S.eval-meta': 28, 'K.skip': 5, 'W.walkers': 75, 'D.dedup': 5, 'H.item-copy': 5, 'N.names': 2, 'O.order': 5, 'C.cursor': 2, 'E.embedders': 2, 'D.derive-sections': 5}
 
 WALKERS = {
     'append_meta::go': ([r'append_meta::go$'], {}),
